@@ -22,16 +22,16 @@ import (
 
 // ---- collaborators kept outside these proofs (recorded, results constrained only as stated)
 
-//@ assume github.com/emitter-io/emitter/internal/security.ParseChannel iface post=post_ParseChannel
+// @ assume github.com/emitter-io/emitter/internal/security.ParseChannel iface post=post_ParseChannel
 func post_ParseChannel(res0 *security.Channel) bool { return res0 != nil }
 
-//@ assume (*github.com/emitter-io/emitter/internal/security.Channel).TTL iface
-//@ assume (*github.com/emitter-io/emitter/internal/security.Channel).Last iface
-//@ assume (*github.com/emitter-io/emitter/internal/security.Channel).Window iface
-//@ assume (*github.com/emitter-io/emitter/internal/security.Channel).Exclude iface
-//@ assume (*github.com/emitter-io/emitter/internal/message.Trie).Subscribe iface
-//@ assume (*github.com/emitter-io/emitter/internal/message.Trie).Unsubscribe iface
-//@ assume (*github.com/emitter-io/emitter/internal/message.Trie).Lookup iface post=post_Trie_Lookup
+// @ assume (*github.com/emitter-io/emitter/internal/security.Channel).TTL iface
+// @ assume (*github.com/emitter-io/emitter/internal/security.Channel).Last iface
+// @ assume (*github.com/emitter-io/emitter/internal/security.Channel).Window iface
+// @ assume (*github.com/emitter-io/emitter/internal/security.Channel).Exclude iface
+// @ assume (*github.com/emitter-io/emitter/internal/message.Trie).Subscribe iface
+// @ assume (*github.com/emitter-io/emitter/internal/message.Trie).Unsubscribe iface
+// @ assume (*github.com/emitter-io/emitter/internal/message.Trie).Lookup iface post=post_Trie_Lookup
 func post_Trie_Lookup(res0 message.Subscribers) bool {
 	// a SET of subscribers keyed by the hash of their id: no nil member (AddUnique refuses nil: C01), and one
 	// subscriber sits under one key only
@@ -42,7 +42,7 @@ func post_Trie_Lookup(res0 message.Subscribers) bool {
 }
 
 // message.New keeps channel and payload as given and stores nothing by default (its id layout is C19's subject)
-//@ assume github.com/emitter-io/emitter/internal/message.New iface post=post_message_New
+// @ assume github.com/emitter-io/emitter/internal/message.New iface post=post_message_New
 func post_message_New(channel, payload []byte, res0 *message.Message) bool {
 	return res0 != nil && res0.TTL == 0 && vs.SameBytes(res0.Channel, channel) && vs.SameBytes(res0.Payload, payload)
 }
@@ -51,12 +51,12 @@ func post_message_New(channel, payload []byte, res0 *message.Message) bool {
 //@ assume (*Service).onEmitterRequest iface
 
 // an authorizer that allows returns the contract and the 24-byte key it decrypted (proved for broker.Service under C03)
-//@ assume (github.com/emitter-io/emitter/internal/service.Authorizer).Authorize iface post=post_Authorize
+// @ assume (github.com/emitter-io/emitter/internal/service.Authorizer).Authorize iface post=post_Authorize
 func post_Authorize(res0 contract.Contract, res1 security.Key, res2 bool) bool {
 	return !res2 || (res0 != nil && len(res1) == 24)
 }
 
-//@ assume (github.com/emitter-io/emitter/internal/provider/contract.Contract).Stats iface post=post_Stats
+// @ assume (github.com/emitter-io/emitter/internal/provider/contract.Contract).Stats iface post=post_Stats
 func post_Stats(res0 interface{ AddIngress(int64) }) bool { return res0 != nil }
 
 func pre_Service(s *Service) bool {
@@ -85,7 +85,7 @@ func specAuthorizedFor(perm uint8) bool {
 // ---------------------------------------------------------------------------------------------------------
 // Subscribe / Unsubscribe: the coupling between the connection's bookkeeping and the trie (C02, C08)
 
-//@ verify (*Service).Subscribe pre=pre_Sub post=post_Subscribe props=C02,C08
+// @ verify (*Service).Subscribe pre=pre_Sub post=post_Subscribe props=C02,C08
 func pre_Sub(s *Service, sub message.Subscriber, ev *event.Subscription) bool {
 	return pre_Service(s) && sub != nil && ev != nil
 }
@@ -101,7 +101,7 @@ func post_Subscribe(s *Service, sub message.Subscriber, ev *event.Subscription, 
 		vs.TraceCount("Trie).Unsubscribe") == 0
 }
 
-//@ verify (*Service).Unsubscribe pre=pre_Sub post=post_Unsubscribe props=C02,C08
+// @ verify (*Service).Unsubscribe pre=pre_Sub post=post_Unsubscribe props=C02,C08
 func post_Unsubscribe(s *Service, sub message.Subscriber, ev *event.Subscription, res0 bool) bool {
 	c := vs.TraceFind("CanUnsubscribe")
 	if c >= 0 && !vs.TraceRet[bool](c, 0) { // the connection does not hold the filter (or holds it more than once): nothing
@@ -122,8 +122,8 @@ func specB2I(b bool) int {
 // ---------------------------------------------------------------------------------------------------------
 // OnSubscribe (C02, C07, C11)
 
-//@ verify (*Service).OnSubscribe pre=pre_OnSub post=post_OnSubscribe_reject,post_OnSubscribe_auth,post_OnSubscribe_sub,post_OnSubscribe_replay props=C02,C07,C11
-//@ loop (*Service).OnSubscribe 0 unroll 2 bounded
+// @ verify (*Service).OnSubscribe pre=pre_OnSub post=post_OnSubscribe_reject,post_OnSubscribe_auth,post_OnSubscribe_sub,post_OnSubscribe_replay props=C02,C07,C11
+// @ loop (*Service).OnSubscribe 0 unroll 2 bounded
 func pre_OnSub(s *Service, c service.Conn) bool { return pre_Service(s) && c != nil }
 func post_OnSubscribe_reject(s *Service, res0 *errors.Error) bool {
 	// a request that fails parsing or authorization changes nothing
@@ -163,8 +163,10 @@ func post_OnSubscribe_replay(s *Service, res0 *errors.Error) bool {
 // ---------------------------------------------------------------------------------------------------------
 // OnUnsubscribe (C02, C11)
 
-//@ verify (*Service).OnUnsubscribe pre=pre_OnSub post=post_OnUnsubscribe_reject,post_OnUnsubscribe_auth props=C02,C11
-func post_OnUnsubscribe_reject(s *Service, res0 *errors.Error) bool { return !specRejected(res0) || specNoEffect() }
+// @ verify (*Service).OnUnsubscribe pre=pre_OnSub post=post_OnUnsubscribe_reject,post_OnUnsubscribe_auth props=C02,C11
+func post_OnUnsubscribe_reject(s *Service, res0 *errors.Error) bool {
+	return !specRejected(res0) || specNoEffect()
+}
 func post_OnUnsubscribe_auth(s *Service, res0 *errors.Error) bool {
 	return specNoEffect() || (specAuthorizedFor(security.AllowRead) && vs.TraceFind("Authorize") < vs.TraceFind("CanUnsubscribe"))
 }
@@ -172,12 +174,14 @@ func post_OnUnsubscribe_auth(s *Service, res0 *errors.Error) bool {
 // ---------------------------------------------------------------------------------------------------------
 // OnPublish (C02, C07, C11)
 
-//@ verify (*Service).OnPublish pre=pre_OnPublish post=post_OnPublish_reject,post_OnPublish_auth,post_OnPublish_store,post_OnPublish_msg,post_OnPublish_exclude props=C02,C07,C11
+// @ verify (*Service).OnPublish pre=pre_OnPublish post=post_OnPublish_reject,post_OnPublish_auth,post_OnPublish_store,post_OnPublish_msg,post_OnPublish_exclude props=C02,C07,C11
 func pre_OnPublish(s *Service, c service.Conn, packet *mqtt.Publish) bool {
 	return pre_Service(s) && c != nil && packet != nil
 }
 func specIsRequest() bool { return vs.TraceCount("onEmitterRequest") > 0 }
-func post_OnPublish_reject(s *Service, res0 *errors.Error) bool { return !specRejected(res0) || specNoEffect() }
+func post_OnPublish_reject(s *Service, res0 *errors.Error) bool {
+	return !specRejected(res0) || specNoEffect()
+}
 func post_OnPublish_auth(s *Service, res0 *errors.Error) bool {
 	return specNoEffect() || (specAuthorizedFor(security.AllowWrite) && vs.TraceFind("Authorize") < vs.TraceFind("message.New"))
 }
@@ -239,7 +243,7 @@ func post_OnPublish_exclude(s *Service, c service.Conn, res0 *errors.Error) bool
 // OnLastWill (C08, C07): publishes exactly one message iff a will was supplied, its topic parses static, and the
 // key allows publishing (write, not extendable); otherwise nothing
 
-//@ verify (*Service).OnLastWill pre=pre_OnLastWill post=post_OnLastWill props=C08,C07,C11
+// @ verify (*Service).OnLastWill pre=pre_OnLastWill post=post_OnLastWill props=C08,C07,C11
 func pre_OnLastWill(s *Service) bool { return pre_Service(s) }
 func post_OnLastWill(s *Service, ev *event.Connection, res0 bool) bool {
 	if !res0 {
@@ -259,8 +263,8 @@ func post_OnLastWill(s *Service, ev *event.Connection, res0 bool) bool {
 //@ assume (github.com/emitter-io/emitter/internal/message.ID).Ssid iface
 //@ assume (*github.com/emitter-io/emitter/internal/message.Message).Size iface
 
-//@ verify (*Service).Publish pre=pre_Publish post=post_Publish_lookup,post_Publish_sends props=C02
-//@ loop (*Service).Publish 0 unroll 2 bounded
+// @ verify (*Service).Publish pre=pre_Publish post=post_Publish_lookup,post_Publish_sends props=C02
+// @ loop (*Service).Publish 0 unroll 2 bounded
 func pre_Publish(s *Service, m *message.Message) bool { return pre_Service(s) && m != nil }
 func post_Publish_lookup(s *Service, m *message.Message) bool {
 	l := vs.TraceFind("Trie).Lookup")
@@ -292,7 +296,7 @@ func post_Publish_sends(s *Service, m *message.Message) bool {
 }
 
 // The filter OnPublish hands to the fan-out: a subscriber is skipped exactly when its id is the excluded one ...
-//@ verify (*Service).OnPublish$1 pre=pre_OnPublish_filter post=post_OnPublish_filter props=C02
+// @ verify (*Service).OnPublish$1 pre=pre_OnPublish_filter post=post_OnPublish_filter props=C02
 func pre_OnPublish_filter(s message.Subscriber) bool { return s != nil }
 func post_OnPublish_filter(s message.Subscriber, exclude string, res0 bool) bool {
 	return res0 == (s.ID() != exclude)
